@@ -89,3 +89,5 @@ CHECKS["C12"]["text"] = CHECKS["C12"]["text"].replace("utterance discovery by pr
 CHECKS["C17"]["text"] = CHECKS["C17"]["text"] + " Proved for all file names, prefixes and suffixes: _DirectoryDataset lists the selected files' ids in ascending id order (the order --first-n and the error-rate pairing rely on)."
 CHECKS["C18"].update(technique="contract-based deductive verification: the real time_distributed_return for symbolic horizon and batch size (matrix product and pow as assumed recurrence contracts, inductions over the summation index as base/step obligations, z3) and per horizon in concrete-shape symbolic mode; bounded run-time contracts for statistics, deltas and the CLI",
                      text="Unbounded: Bellman recurrence of the real time_distributed_return for every horizon, batch size, reward and discount factor (real arithmetic), both layouts. " + CHECKS["C18"]["text"])
+CHECKS["C20"].update(technique="contract-based deductive verification: the real dot-product soft attention forward for symbolic sequence length / key size / value size (sum and softmax as assumed partial-sum contracts, induction over the sequence index as base/step obligations, z3) and per shape in concrete-shape symbolic mode; bounded run-time contracts for permutation, broadcasting and multi-head composition",
+                     text="Unbounded: every output coordinate of dot-product soft attention lies between the bounds of the kept values for every sequence length, key size, value size, query, key, value and mask with a kept position. " + CHECKS["C20"]["text"])
